@@ -1,3 +1,4 @@
+import Firebolt.Properties.TransBase
 import Firebolt.Model.Producer
 import Firebolt.Generated.Skeleton
 import Firebolt.Expected.Skeleton
@@ -84,6 +85,30 @@ theorem skeleton_handleFailure : Generated.handleFailure = Expected.handleFailur
 
 /-! ### influence closure: the pinned functions, and every function of the repository that writes a struct field or package
 variable they read, are unchanged (digests regenerated from /repo on every run; a difference names the functions) -/
+/-! ### The code itself, translated (`Generated/Trans.lean`, rewritten from /repo on every run by extractor/translate.go)
+
+The `translated_*` theorems are about MiniGo terms the translator produced from the current Go source: for every
+environment the translated fragment does what the hand-written model function says.  They are semantic obligations —
+a rewrite that preserves the behaviour keeps them provable, a changed comparison, bound or argument does not. -/
+section Translated
+open Firebolt.MiniGo Firebolt.TransBase
+
+/-- KafkaProducer.Process: a record is produced iff the payload is a produce request and a topic is known (the
+request's own topic wins over the configured one); otherwise an error is returned and nothing is produced -/
+theorem translated_kpProcess (σ : Env) :
+    let r := run Trans.kpProcess σ
+    let isReq := σ "assert firebolt.ProduceRequest#1" ≠ 0
+    let dest := if σ "produceRequest.Topic#0" ≠ σ "\"\"" then σ "produceRequest.Topic#0" else σ "k.topic"
+    r.stuck = false ∧
+    ((∃ a, ("k.Produce", a) ∈ r.calls) ↔ (isReq ∧ dest ≠ σ "\"\"")) ∧
+    (r.ret = if isReq ∧ dest ≠ σ "\"\"" then some [0, 0] else some [0, σ "errors.New#0"]) ∧
+    (isReq → dest ≠ σ "\"\"" → r.env "destinationTopic" = dest) := by
+  by_cases h1 : σ "assert firebolt.ProduceRequest#1" = 0 <;>
+  by_cases h2 : σ "produceRequest.Topic#0" = σ "\"\"" <;>
+  by_cases h3 : σ "k.topic" = σ "\"\"" <;>
+  minigo_simp [Trans.kpProcess, h1, h2, h3]
+end Translated
+
 theorem closure_unchanged : GeneratedClo.C15 = ExpectedClo.C15 := by rfl
 
 end Firebolt.C15
